@@ -3,6 +3,7 @@ use std::collections::{BTreeSet};
 use std::iter::FromIterator;
 use std::ops::Add;
 use std::cmp::Ordering;
+use std::convert::TryFrom;
 
 use regex::Regex;
 
@@ -128,6 +129,28 @@ impl<'a, T: ColumnProvider> ExpressionExecutionEngine<'a, T> {
                     _ => {}
                 }
 
+                // Integer arithmetic is checked: overflow and division by zero are errors (not a panic or a wrapped value)
+                if let (Value::Int(x), Value::Int(y)) = (&left_value, &right_value) {
+                    if *y == 0 && operator == &ArithmeticOperator::Divide {
+                        return Err(EvaluationError::DivisionByZero);
+                    }
+
+                    return match operator {
+                        ArithmeticOperator::Add => x.checked_add(*y),
+                        ArithmeticOperator::Subtract => x.checked_sub(*y),
+                        ArithmeticOperator::Multiply => x.checked_mul(*y),
+                        ArithmeticOperator::Divide => x.checked_div(*y)
+                    }.map(|value| Value::Int(value)).ok_or(EvaluationError::Overflow);
+                }
+
+                if let (Value::Interval(x), Value::Interval(y)) = (&left_value, &right_value) {
+                    return match operator {
+                        ArithmeticOperator::Add => x.checked_add(y).map(|value| Value::Interval(value)).ok_or(EvaluationError::Overflow),
+                        ArithmeticOperator::Subtract => x.checked_sub(y).map(|value| Value::Interval(value)).ok_or(EvaluationError::Overflow),
+                        _ => Err(EvaluationError::UndefinedOperation)
+                    };
+                }
+
                 left_value.map_same_type(
                     &right_value,
                     || Some(Value::Null),
@@ -178,6 +201,10 @@ impl<'a, T: ColumnProvider> ExpressionExecutionEngine<'a, T> {
             }
             ExpressionTree::UnaryArithmetic { operand, operator } => {
                 let operand_value = self.evaluate(operand)?;
+
+                if let (Value::Int(x), UnaryArithmeticOperator::Negative) = (&operand_value, operator) {
+                    return x.checked_neg().map(|value| Value::Int(value)).ok_or(EvaluationError::Overflow);
+                }
 
                 operand_value.map(
                     || Some(Value::Null),
@@ -274,6 +301,10 @@ impl<'a, T: ColumnProvider> ExpressionExecutionEngine<'a, T> {
                     Function::Abs if arguments.len() == 1 => {
                         let arg = executed_arguments.remove(0);
 
+                        if let Value::Int(x) = &arg {
+                            return x.checked_abs().map(|value| Value::Int(value)).ok_or(EvaluationError::Overflow);
+                        }
+
                         arg.map(
                             || Some(Value::Null),
                             |x| Some(x.abs()),
@@ -308,7 +339,8 @@ impl<'a, T: ColumnProvider> ExpressionExecutionEngine<'a, T> {
                             || Some(Value::Null),
                             |x, y| {
                                 if y >= 0 {
-                                    Some(Value::Int(x.pow(y as u32)))
+                                    // None (an error) if the exponent or the result is out of range
+                                    u32::try_from(y).ok().and_then(|y| x.checked_pow(y)).map(|value| Value::Int(value))
                                 } else {
                                     None
                                 }
@@ -563,7 +595,11 @@ impl<'a, T: ColumnProvider> ExpressionExecutionEngine<'a, T> {
                         let index = self.evaluate(index)?;
                         match index {
                             Value::Int(value) => {
-                                Ok(values.get((value - 1) as usize).cloned().unwrap_or(Value::Null))
+                                // Indices are 1-based. Any index outside the array (also zero, negative or huge ones) gives NULL
+                                let element = value.checked_sub(1)
+                                    .and_then(|index| usize::try_from(index).ok())
+                                    .and_then(|index| values.get(index));
+                                Ok(element.cloned().unwrap_or(Value::Null))
                             }
                             _ => {
                                 Err(EvaluationError::ExpectedArrayIndexingToBeInt(index.value_type()))
